@@ -16,6 +16,7 @@ FIXED_LISTS = [
     ["a", "b"], ["red", "dark blue", "x-large"], ["a-b", "a.b", "a b"], ["a", "A"], ["ab", "a_b"], ["1st", "2nd"], ["", "x"], ["x" * 80, "y"], ["é", "e"], ["日本", "中国"], ["a b", "a  b"], ["+", "-"], ["*", "/"],
     ["true", "false"], ["None", "none"], ["class", "def"], ["1", "2"], ["a", "b", "c", "d", "e", "f", "g"], ["value_1", "VALUE_1"], ["Ünï", "unı"], ["a\tb", "a b"], ["#hash", "hash"], ["x²", "x2"], ["mro", "name", "value"], ["_a", "a_"], ["__", "_"],
     ["first", "VALUE_2", "3rd", "last"], ["VALUE_0", "", "z"], ["value_1", "2", "x"], ["VALUE_1", "a", "1"], ["a", "VALUE_3", "b", "4th"], ["Value 1", "9"],
+    ['say "hi"', "plain"], ["it's", 'q"q', "both'\""], ["back\\slash", "x"], ['a"', "a"], ["%s", "{x}", "{{y}}"],
     [0, 1], [-1, 1], [0], [-5, 5, 50], [2**31, -(2**31)], [10, 100, 1000], [1, 2, 3, 4, 5, 6],
 ]
 CONSTS = ["c", "", "with space", "quote'", 0, 7, -3, 2.5, True, False, "True", "7"]
@@ -108,6 +109,56 @@ def main() -> int:
             j = run.job(d, want=["manifest"], cfg={"literal_enums": le}, plan={"fn": "c14", "args": {"cases": cases}})
             info[j["id"]] = ("const", le, cases)
             jobs.append(j)
+    # an enum listing null, declared once and visited for several operations (path-item level, components/parameters)
+    pjobs = []
+    for le in (False, True):
+        for pi_, vals in enumerate([["asc", "desc"], [1, 2, 3], ["only"]]):
+            for version in ("3.0.3", "3.1.0"):
+                t = "string" if isinstance(vals[0], str) else "integer"
+                sch = {"type": [t, "null"], "enum": vals + [None]} if version.startswith("3.1") else {"type": t, "enum": vals + [None], "nullable": True}
+                d = docs.base_doc(version, "Shared Enum Parameters")
+                ok = {"200": {"description": "ok"}}
+                d["components"]["parameters"] = {"Order": {"name": "order", "in": "query", "schema": docs.clone(sch)}, "Mode": {"name": "mode", "in": "query", "schema": docs.clone(sch)}}  # (header / cookie stringification of union values is C03's finding)
+                PO, PM = {"$ref": "#/components/parameters/Order"}, {"$ref": "#/components/parameters/Mode"}
+                d["paths"] = {
+                    "/a": {"get": {"operationId": "a_get", "parameters": [PO], "responses": ok}, "post": {"operationId": "a_post", "parameters": [PO, PM], "responses": ok}},
+                    "/b": {"parameters": [{"name": "sort", "in": "query", "schema": docs.clone(sch)}], "get": {"operationId": "b_get", "responses": ok}, "put": {"operationId": "b_put", "parameters": [PM], "responses": ok},
+                           "delete": {"operationId": "b_delete", "responses": ok}},
+                    "/c": {"get": {"operationId": "c_get", "parameters": [PM, PO], "responses": ok}},
+                }
+                j = run.job(d, want=["manifest"], cfg={"literal_enums": le}, plan={"fn": "c14params", "args": {}})
+                pjobs.append((j, le, vals))
+    for (j, le, vals), res in zip(pjobs, run.map([x[0] for x in pjobs], timeout=300)):
+        style = "literal" if le else "enum"
+        if res.get("_error") or (res.get("sandbox") or {}).get("_error") or res.get("plan_error") or res.get("exc"):
+            ev.count("case_unusable")
+            continue
+        seen_ops = set()
+        for a, x in actions_results(res):
+            if x.get("action_exc"):
+                ev.count("sandbox_action_failed")
+                continue
+            xx = a["x"]
+            vr = x.get("sync_detailed") or {}
+            seen_ops.add(xx["case"])
+            ev.count("shared_parameter_calls")
+            w = {"doc": j["doc"], "literal_enums": le, "operation": xx["case"], "parameter": xx["param"], "value": xx["value"]}
+            reqs = vr.get("requests") or []
+            if vr.get("exc") and not reqs:
+                vd.violation(f"{'null' if xx['value'] is None else 'listed'}_rejected:{style}:shared_parameter", f"{xx['case']}: passing {xx['value']!r} for {xx['param']} (enum {vals} + null) raised {vr['exc']['type']}: {vr['exc']['msg'][:100]}", w)
+                continue
+            if not reqs:
+                continue
+            c = reqs[0]
+            sent = [q[1] for q in c["query"] if q[0] == xx["param"]] if xx["loc"] == "query" else [h[1] for h in c["headers"] if h[0].lower() == xx["param"].lower()]
+            if xx["value"] is None:
+                if sent and sent != ["null"] and sent != [""]:
+                    vd.violation(f"null_not_none:{style}:shared_parameter", f"{xx['case']}: None for {xx['param']} transmitted as {sent}", w)
+            elif len(sent) != 1 or not expect.spell_ok(xx["value"], sent[0]):
+                vd.violation(f"listed_not_reproduced:{style}:shared_parameter", f"{xx['case']}: {xx['value']!r} for {xx['param']} transmitted as {sent}", w)
+        if len(seen_ops) < 6:
+            vd.violation(f"silently_dropped:{style}:shared_parameter", f"only operations {sorted(seen_ops)} of 6 accept their null-listing enum parameter (diagnostics: {[x['header'] for x in res.get('diags') or []][:2]})", {"doc": j["doc"], "literal_enums": le})
+        ev.seen(("C14p", style, len(vals), j["doc"]["openapi"]))
     rs = run.map(jobs, timeout=300)
     for j, res in zip(jobs, rs):
         kind, le, cases = info[j["id"]]
@@ -141,6 +192,9 @@ def main() -> int:
                 what = a["x"]["what"]
                 if x.get("action_exc"):
                     ev.count("sandbox_action_failed")
+                    if x["action_exc"].get("type") in ("SyntaxError", "ImportError", "ModuleNotFoundError", "NameError", "AttributeError"):
+                        vd.violation(f"generated_enum_unusable:{x['action_exc'].get('type')}:{style}", f"{key}: generated for values {vals if vals is not None else case.get('const')} but not usable: {x['action_exc'].get('msg', '')[:160]}", w)
+                        break
                     continue
                 if what == "members":
                     got = [m[1].get("v") for m in x.get("members") or []]
